@@ -558,5 +558,10 @@ pub fn idle_histories() -> Vec<(&'static str, Vec<Tok>)> {
         ("afterreset", vec![Tok::Start, Tok::B(0x55), Tok::Rst]),
         ("afterfinalize", vec![Tok::Start, Tok::B(0x1b), Tok::Fin]),
         ("afterokreset", vec![Tok::Frame(vec![0x33]), Tok::Rst]),
+        // reset / finalize called while the decoder is idle with noise or a partially matched start sequence pending
+        ("noisepartialreset", vec![Tok::B(0x55), Tok::B(0x1b), Tok::B(0x1b), Tok::Rst]),
+        ("partialstartfinalize", START[..6].iter().cloned().map(Tok::B).chain([Tok::Fin]).collect()),
+        ("okthen1breset", vec![Tok::Frame(vec![0x33]), Tok::B(0x1b), Tok::B(0x1b), Tok::B(0x1b), Tok::Rst]),
+        ("noisefinalize", vec![Tok::B(0x55), Tok::B(0x66), Tok::Fin]),
     ]
 }
